@@ -121,6 +121,17 @@ fn type_has_infer(t: &Type) -> bool {
     v.0
 }
 
+/// a type with a component that was never determined (the `T` of a bare `None`, the element type of `&[]`)
+fn ty_undetermined(t: &Ty) -> bool {
+    match t {
+        Ty::Never => true,
+        Ty::Option(a) | Ty::List(a) => ty_undetermined(a),
+        Ty::Tuple(ts) => ts.iter().any(ty_undetermined),
+        Ty::Result(a, b) | Ty::Fun(a, b) => ty_undetermined(a) || ty_undetermined(b),
+        _ => false,
+    }
+}
+
 fn base_k<'a, 'b>(k: &'b K<'a>) -> &'b K<'a> {
     match k {
         K::Then(_, _, k2) => base_k(k2),
@@ -315,8 +326,15 @@ impl<'u> Tr<'u> {
                     Some(t) => Some(self.ty(t, env.self_ty.as_deref())?),
                     None => None,
                 };
+                // `let (a, b) = { stmts; (ea, eb) };`: the statements of the block, then the components one by one (fifth
+                // round): a component that does not translate (the result of a wait loop) only poisons its own name
+                if let (Pat::Tuple(pt), Expr::Block(eb)) = (pat, strip_refs(init)) {
+                    if let Some(synth) = self.flatten_tuple_let(pt, eb, rest, env)? {
+                        return self.block(&synth, env, k);
+                    }
+                }
                 let mut env2 = env.clone();
-                if matches!(strip_refs(init), Expr::If(_) | Expr::Match(_) | Expr::Block(_)) && contains_return_expr(init) {
+                if matches!(strip_refs(init), Expr::If(_) | Expr::Match(_) | Expr::Block(_)) && (contains_return_expr(init) || contains_try_expr(init)) {
                     // `let p = match .. { .. => v, .. => return r };`: the rest of the block follows every value leaf
                     if !matches!(pat, Pat::Ident(_) | Pat::Wild(_) | Pat::Tuple(_)) {
                         return self.err(sp, "unsupported pattern in `let`");
@@ -324,9 +342,22 @@ impl<'u> Tr<'u> {
                     let kb = K::Bind(pat, env.clone(), hint.clone(), rest, k);
                     return self.tail_bind(strip_refs(init), env, &kb);
                 }
+                if let (Expr::Try(_), None, true) = (init, &env.ret, self.spec.module.is_some()) {
+                    // `let p = e?;` among the `let`s a fragment depends on (no function result to return the error
+                    // through): the error exit is outside the fragment; the binding is usable only if nothing needs it
+                    let why = "bound by `?` outside a translated function (the error exit is not part of the fragment)".to_owned();
+                    let mut env3 = env.clone();
+                    self.poison_pattern(pat, &mut env3, &why, sp)?;
+                    self.notes.push(format!("{}:{}: `let {} = ..?` is not translated ({why}); any use of it in a translated position is an error", self.cur_file, sp.start().line, norm(pat)));
+                    return self.block(rest, &env3, k);
+                }
                 if let Expr::Try(tr) = init {
                     // `let p = e?;`: the Err case leaves the function with the same error
-                    let (g, t) = self.expr(&tr.expr, env, None)?;
+                    let eh = match &env.ret {
+                        Some(Ty::Result(_, b)) => Some(Ty::Result(Box::new(hint.clone().unwrap_or(Ty::Never)), b.clone())),
+                        _ => None,
+                    };
+                    let (g, t) = self.expr(&tr.expr, env, eh.as_ref())?;
                     let (a, b) = match &t {
                         Ty::Result(a, b) => ((**a).clone(), (**b).clone()),
                         _ => return self.err(sp, format!("`?` on a value of type {}", t.coq())),
@@ -366,6 +397,16 @@ impl<'u> Tr<'u> {
                             }
                         }
                         let (body, bt) = self.block(rest, &env2, k)?;
+                        // a value whose type is not determined (`None`) and that nothing uses: Coq could not type the `let`
+                        if (ty_undetermined(&t) || matches!(&g, G::Raw(r) if r == "None" || r == "nil")) && self.spec.module.is_some() {
+                            let text = body.render(0);
+                            let used = text
+                                .split(|c: char| !(c.is_alphanumeric() || c == '_' || c == '\''))
+                                .any(|w| w == binder.trim_start_matches('\''));
+                            if !used && !binder.contains('(') {
+                                return Ok((body, bt));
+                            }
+                        }
                         Ok((mk_let(binder, Box::new(g), Box::new(body)), bt))
                     }
                     Err(e) => {
@@ -484,7 +525,18 @@ impl<'u> Tr<'u> {
                     K::Bind(p, el, h, r, k2) => (*p, el, h, *r, *k2),
                     _ => return self.err(e.span(), "internal: tail_bind without a binding continuation"),
                 };
-                let (g, t) = self.expr(e, env, hint.as_ref())?;
+                // `Some(x?)`: every `?` of the leaf must be evaluated whenever the leaf is; each is hoisted in front of it
+                let hoist = match strict_tries(e) {
+                    Some(n) => n > 0,
+                    None => return self.err(e.span(), "`?` inside a branch, a closure or a lazy operand of the value of a `let`"),
+                };
+                let saved_slots = self.try_slots.take();
+                if hoist {
+                    self.try_slots = Some(Vec::new());
+                }
+                let r = self.expr(e, env, hint.as_ref());
+                let slots = std::mem::replace(&mut self.try_slots, saved_slots).unwrap_or_default();
+                let (g, t) = r?;
                 let t = hint.clone().unwrap_or(t);
                 // a name the branch binds must not hide a name of the enclosing block that the rest may use
                 let mut bound = Vec::new();
@@ -500,7 +552,11 @@ impl<'u> Tr<'u> {
                     _ => self.pattern(pat, &t, &mut env2)?,
                 };
                 let (body, bt) = self.block(rest, &env2, k2)?;
-                Ok((mk_let(binder, Box::new(g), Box::new(body)), bt))
+                let mut whole = mk_let(binder, Box::new(g), Box::new(body));
+                for (n, ge) in slots.into_iter().rev() {
+                    whole = G::Match(Box::new(ge), vec![(format!("inl {n}"), whole), ("inr e".into(), raw("inr e"))]);
+                }
+                Ok((whole, bt))
             }
         }
     }
@@ -557,19 +613,29 @@ impl<'u> Tr<'u> {
                 None => return self.err(arm.span(), "cfg predicate on a match arm is not decided (see cfg_features)"),
             }
             let mut env2 = env.clone();
-            let pat = match self.pattern(&arm.pat, &st, &mut env2) {
-                Ok(p) => p,
-                // the arm can only match variants left out by enum_subset
-                Err(e) if e.excluded => continue,
-                Err(e) => return Err(e),
+            // a string literal / string constant as a pattern: `_` guarded by the equality test (fifth round)
+            let str_test = if st == Ty::Str { self.str_pattern_test(&arm.pat, &s, env)? } else { None };
+            let pat = match &str_test {
+                Some(_) => "_".to_owned(),
+                None => match self.pattern(&arm.pat, &st, &mut env2) {
+                    Ok(p) => p,
+                    // the arm can only match variants left out by enum_subset
+                    Err(e) if e.excluded => continue,
+                    Err(e) => return Err(e),
+                },
             };
             let guard = match &arm.guard {
                 Some((_, g)) => Some(self.expr(g, &env2, Some(&Ty::Bool))?.0),
                 None => None,
             };
+            let guard = match (str_test.clone(), guard) {
+                (Some(a), Some(b)) => Some(app("andb", vec![a, b])),
+                (Some(a), None) => Some(a),
+                (None, g) => g,
+            };
             let (body, bt) = f(self, &arm.body, &env2)?;
             t = pick_ty(t, bt);
-            arms.push(ArmG { pat, guard, body, irrefutable: self.is_irrefutable(&arm.pat, env) });
+            arms.push(ArmG { pat, guard, body, irrefutable: str_test.is_some() || self.is_irrefutable(&arm.pat, env) });
         }
         if arms.is_empty() {
             return self.err(m.span(), "match without arms in this configuration");
@@ -577,6 +643,113 @@ impl<'u> Tr<'u> {
         match assemble_match(&s, &arms) {
             Ok(g) => Ok((g, t)),
             Err(msg) => self.err(m.span(), msg),
+        }
+    }
+
+    /// `let (a, b) = { stmts; (ea, eb) }; rest` as `stmts; let a = ea; let b = eb; rest` (None: not of that shape). Sound
+    /// only if the block's own locals cannot be mistaken for outer ones afterwards and the components do not depend on
+    /// the order in which they are bound: both are checked.
+    fn flatten_tuple_let(&mut self, pt: &syn::PatTuple, eb: &syn::ExprBlock, rest: &[Stmt], env: &Env) -> R<Option<Vec<Stmt>>> {
+        if eb.label.is_some() || self.spec.module.is_none() {
+            return Ok(None);
+        }
+        let (tail, inner) = match eb.block.stmts.split_last() {
+            Some((Stmt::Expr(Expr::Tuple(tt), None), inner)) if tt.elems.len() == pt.elems.len() => (tt, inner),
+            _ => return Ok(None),
+        };
+        let mut names: Vec<Option<String>> = Vec::new();
+        for p in &pt.elems {
+            match p {
+                Pat::Ident(i) if i.subpat.is_none() => names.push(Some(i.ident.to_string())),
+                Pat::Wild(_) => names.push(None),
+                _ => return Ok(None),
+            }
+        }
+        // no exit out of the block other than through its end
+        let blk = Block { brace_token: Default::default(), stmts: inner.to_vec() };
+        if contains_return_block(&blk) {
+            return Ok(None);
+        }
+        // a local of the block must not hide an outer name the rest could mean
+        let mut bound = Vec::new();
+        for s in inner {
+            match s {
+                Stmt::Local(l) => pat_idents(&l.pat, &mut bound),
+                Stmt::Item(_) => return Ok(None),
+                _ => {}
+            }
+        }
+        for b in &bound {
+            if !names.iter().any(|n| n.as_deref() == Some(b.as_str())) && env.lookup(b).is_some() {
+                return self.err(eb.span(), format!("`{b}`, a local of the block a tuple `let` is bound to, hides an outer binding"));
+            }
+        }
+        let mut synth: Vec<Stmt> = inner.to_vec();
+        poison_macro_mutated(&mut synth, &blk, &self.spec.ignore_macros);
+        for (i, (n, e)) in names.iter().zip(tail.elems.iter()).enumerate() {
+            let same = matches!((n, strip_refs(e)), (Some(n), Expr::Path(p)) if p.path.is_ident(n.as_str()));
+            if same && bound.iter().any(|b| Some(b) == n.as_ref()) {
+                // `(.., x, ..)` bound to the pattern's `x`: the block's own `let x` is the binding
+                continue;
+            }
+            let used = idents_of(e);
+            for earlier in names[..i].iter().flatten() {
+                if used.contains(earlier) {
+                    return self.err(e.span(), "a component of the tuple a `let` is bound to uses a name another component binds");
+                }
+            }
+            let text = match n {
+                Some(n) => format!("let {n} = {};", e.to_token_stream()),
+                None => format!("let _ = {};", e.to_token_stream()),
+            };
+            match syn::parse_str::<Stmt>(&text) {
+                Ok(st) => synth.push(st),
+                Err(_) => return Ok(None),
+            }
+        }
+        synth.extend(rest.iter().cloned());
+        Ok(Some(synth))
+    }
+
+    /// `"lit"` / `Type::CONST` (a string constant) / an or-pattern of these against a string scrutinee: the equality
+    /// test the pattern stands for; None: some other pattern
+    fn str_pattern_test(&mut self, p: &Pat, scrut: &G, env: &Env) -> R<Option<G>> {
+        match p {
+            Pat::Paren(x) => self.str_pattern_test(&x.pat, scrut, env),
+            Pat::Reference(x) => self.str_pattern_test(&x.pat, scrut, env),
+            Pat::Lit(l) => match &l.lit {
+                Lit::Str(_) => {
+                    let (g, _) = self.lit(&l.lit, Some(&Ty::Str), p.span())?;
+                    Ok(Some(app("String.eqb", vec![scrut.clone(), g])))
+                }
+                _ => Ok(None),
+            },
+            Pat::Path(pp) => match self.resolve_path(&pp.path, env)? {
+                Some(Resolved::Const(t, c)) => {
+                    let (g, ty) = self.ensure_const(&t, &c, p.span())?;
+                    if ty != Ty::Str {
+                        return self.err(p.span(), "a constant that is not a string as a pattern against a string");
+                    }
+                    Ok(Some(app("String.eqb", vec![scrut.clone(), g])))
+                }
+                _ => Ok(None),
+            },
+            Pat::Or(o) => {
+                let mut tests = Vec::new();
+                for c in &o.cases {
+                    match self.str_pattern_test(c, scrut, env)? {
+                        Some(t) => tests.push(t),
+                        None => return Ok(None),
+                    }
+                }
+                let mut it = tests.into_iter();
+                let first = match it.next() {
+                    Some(f) => f,
+                    None => return Ok(None),
+                };
+                Ok(Some(it.fold(first, |a, b| app("orb", vec![a, b]))))
+            }
+            _ => Ok(None),
         }
     }
 
